@@ -41,6 +41,27 @@ class Mat(object):
         self.v = [float(e) for e in vals]; self.size = size; self.sparse = sparse
     def col(self):
         return self.size[1] == 1
+    # constant arithmetic (column vectors / scalars only; anything else is left to R)
+    def __getitem__(self, key):
+        if not self.col(): raise Reject('constant matrix indexing')
+        if isinstance(key, slice):
+            v = self.v[key]; return Mat(v, (len(v), 1))
+        return self.v[key]
+    def _el(self, o, f):
+        if isinstance(o, (int, float)) and not isinstance(o, bool): return Mat([f(a, float(o)) for a in self.v], self.size, self.sparse)
+        if isinstance(o, Mat) and o.size == self.size: return Mat([f(a, b) for a, b in zip(self.v, o.v)], self.size)
+        return NotImplemented
+    def __add__(self, o): return self._el(o, lambda a, b: a + b)
+    def __radd__(self, o): return self._el(o, lambda a, b: b + a)
+    def __sub__(self, o): return self._el(o, lambda a, b: a - b)
+    def __rsub__(self, o): return self._el(o, lambda a, b: b - a)
+    def __neg__(self): return Mat([-a for a in self.v], self.size, self.sparse)
+    def __mul__(self, o):
+        if isinstance(o, (int, float)) and not isinstance(o, bool): return Mat([a*float(o) for a in self.v], self.size, self.sparse)
+        return NotImplemented
+    def __rmul__(self, o):
+        if isinstance(o, (int, float)) and not isinstance(o, bool): return Mat([a*float(o) for a in self.v], self.size, self.sparse)
+        return NotImplemented
 
 class R(object):
     """reference value of an expression: list of numbers + curvature"""
